@@ -1785,7 +1785,11 @@ func (f *fragment) topBitmapPairs(rowIDs []uint64) []bitmapPair {
 		return f.cache.Top()
 	}
 
-	// Otherwise retrieve specific rows.
+	// Otherwise retrieve specific rows. The cache is only safe to use under
+	// the fragment lock (the LRU cache has no lock of its own, and writers
+	// update it while they hold the fragment lock).
+	f.mu.Lock()
+	defer f.mu.Unlock()
 	pairs := make([]bitmapPair, 0, len(rowIDs))
 	for _, rowID := range rowIDs {
 		// Look up cache first, if available.
@@ -1797,7 +1801,7 @@ func (f *fragment) topBitmapPairs(rowIDs []uint64) []bitmapPair {
 			continue
 		}
 
-		row := f.row(rowID)
+		row := f.unprotectedRow(rowID)
 		if row.Count() > 0 {
 			// Otherwise load from storage.
 			pairs = append(pairs, bitmapPair{
